@@ -24,11 +24,11 @@ SETTINGS = {"settings": {"performance_progress_list_var_name": PERF,
 ENV = dict(os.environ, PYTHONPATH=REPO, PYTHONHASHSEED="0", PYTHONWARNINGS="ignore")
 
 
-def cli_compile(src: str) -> dict:
+def cli_compile(src: str, settings: dict | None = None) -> dict:
     with tempfile.TemporaryDirectory(prefix="verif_cli_") as d:
         sp, st = os.path.join(d, "main.exps"), os.path.join(d, "settings.json")
         open(sp, "w", encoding="utf-8").write(src)
-        json.dump(SETTINGS, open(st, "w"))
+        json.dump(SETTINGS if settings is None else settings, open(st, "w"))
         try:
             p = subprocess.run(["/venv/bin/python", "-m", "explorerscript.cli.compile", sp, "--settings", st], capture_output=True,
                                text=True, timeout=60, env=ENV, cwd=d)
@@ -295,6 +295,34 @@ def main() -> None:
         d = cli_decompile(bad_doc)
         if d["rc"] == 0:
             run.fail("decompile-exit-0-on-error", f"decompile CLI exits with 0 on an invalid document ({name})", {"document": bad_doc})
+    # settings: a settings file that lacks documented fields is no success; whatever is printed with exit status 0 has the
+    # documented structure (so that the decompile command accepts it)
+    import copy
+    simple = "def 0 {\n    a(1);\n    end;\n}\n"
+    variants = []
+    for drop in (["closed"], ["open", "request"], ["closed", "open", "request", "open_request"], ["open_request"]):
+        st = copy.deepcopy(SETTINGS)
+        for kx in drop:
+            del st["settings"]["dungeon_mode_constants"][kx]
+        variants.append(("dungeon_mode_constants without " + "/".join(drop), st))
+    st = copy.deepcopy(SETTINGS)
+    del st["settings"]["performance_progress_list_var_name"]
+    variants.append(("no performance_progress_list_var_name", st))
+    variants.append(("no settings", {}))
+    for name, st in variants:
+        c = cli_compile(simple, st)
+        run.case(["settings", name], nontrivial=True)
+        run.count("incomplete settings:rc=" + str(c["rc"]))
+        if c["rc"] == 0:
+            try:
+                sh = check_shape(json.loads(c["out"]))
+            except ValueError:
+                sh = "stdout is not JSON"
+            dd2 = cli_decompile(c["out"])
+            if sh or dd2["rc"] != 0:
+                run.fail("incomplete-settings-accepted", f"compile CLI exits with 0 for settings with {name}, but prints a document "
+                         f"{'without the documented structure (' + sh + ')' if sh else 'the decompile CLI rejects'}",
+                         {"settings": st, "stdout": c["out"], "decompile_stderr": dd2["err"]})
     run.sample({"source": texts[0], "stdout": clis[0]["out"][:600]})
     run.finish(rule="G_prog programs through real CLI subprocesses: exit status, JSON structure, the document renumbered as documented "
                     "decided against the source by the verified checker; compile output fed to the decompile CLI; documented JSON "
